@@ -14,9 +14,9 @@ import (
 
 var c04Cfg = kit.WorldCfg{Stores: []kit.StoreCfg{
 	{Name: "targets", UniqueName: false},
-	{Name: "an", RefTo: "targets", RefWiring: kit.WireFkIndexNullable},
+	{Name: "an", RefTo: "targets", RefWiring: kit.WireFkIndexNullable, Keyed: true}, // fk symbol registered with a different persisted key
 	{Name: "bn", RefTo: "targets", RefWiring: kit.WireFkIndex},
-	{Name: "cn", RefTo: "targets", RefWiring: kit.WireConstraintNone},
+	{Name: "cn", RefTo: "targets", RefWiring: kit.WireConstraintNone, Keyed: true},
 	{Name: "cd", RefTo: "targets", RefWiring: kit.WireConstraintDel},
 	{Name: "ec", RefTo: "targets", RefWiring: kit.WireFkIndexCascade},
 	{Name: "mgr", RefTo: "mgr", RefWiring: kit.WireFkIndexNullable}, // self reference: manager / reports
@@ -81,6 +81,29 @@ func genC04(t *rapid.T) kit.History {
 // cascade-wired referrers of one target and then deletes that target.
 func genC04Full(t *rapid.T) kit.History {
 	h := genC04(t)
+	if rapid.IntRange(0, 5).Draw(t, "staleTarget") == 0 {
+		// one transaction: reference a target, drop the reference, delete the target, reference it again.
+		// The last step must be refused (the target no longer exists) and with it the whole transaction.
+		m := replayModel(h)
+		store := []string{"cn", "cd", "an", "bn", "ec"}[rapid.IntRange(0, 4).Draw(t, "staleStore")]
+		target := "stale-target"
+		tx := kit.TxSpec{}
+		if _, ok := m.Ents["targets"][target]; !ok {
+			tx.Ops = append(tx.Ops, kit.Op{Kind: "create", Store: "targets", ID: target, Spec: &kit.EntSpec{Name: "n"}})
+		}
+		for _, rid := range []string{"s0", "s1"} {
+			if _, exists := m.Ents[store][rid]; exists {
+				return h
+			}
+		}
+		tx.Ops = append(tx.Ops,
+			kit.Op{Kind: "create", Store: store, ID: "s0", Spec: &kit.EntSpec{Name: "n", Ref: kit.Sp(target)}},
+			kit.Op{Kind: "delete", Store: store, ID: "s0"},
+			kit.Op{Kind: "delete", Store: "targets", ID: target},
+			kit.Op{Kind: "create", Store: store, ID: "s1", Spec: &kit.EntSpec{Name: "n", Ref: kit.Sp(target)}})
+		h.Txs = append(h.Txs, tx)
+		return h
+	}
 	if rapid.IntRange(0, 3).Draw(t, "burst") != 0 {
 		return h
 	}
